@@ -55,7 +55,8 @@ func c18Build(cs c18Case) c18File {
 	case "PNG":
 		s := pngSpecFor(uint32(10+rng.Intn(5000)), uint32(10+rng.Intn(5000)), 6, 8, 0, rng)
 		if icc != nil {
-			s.ICC = &imggen.PNGICC{Name: latin1(rng, []int{1, 4, 78, 79}[int(cs.Seed>>3)%4]), Profile: icc, Level: 1}
+			// every zlib level: the two header bytes differ (78 01 / 78 5E / 78 9C / 78 DA) and so does the stream
+			s.ICC = &imggen.PNGICC{Name: latin1(rng, []int{1, 4, 78, 79}[int(cs.Seed>>3)%4]), Profile: icc, Level: []int{1, -2, 0, 2, 5, 6, 9, -1}[int(cs.Seed>>5)%8]}
 		}
 		anc := []imggen.PNGChunk{}
 		for n := 0; n < bigAnc; n += 50000 {
